@@ -1,11 +1,12 @@
-import Cbor.Drv.Util
+import Cbor.Drv.SpecOps
 /-! `specdrv`: executable form of the Spec layer (never imports `Cbor.Gen` or `Cbor.Model`):
 the property oracle used to search the implementation for a failing input. -/
 
 def specStep (line : String) : String :=
   let ws := (line.trimAscii.toString.splitOn " ").filter (· ≠ "")
-  match ws with
-  | _ => "bad-op"
+  match Drv.specOp ws with
+  | some out => out
+  | none => "bad-op"
 
 partial def specLoop (h : IO.FS.Stream) (out : IO.FS.Stream) : IO Unit := do
   let line ← h.getLine
